@@ -129,8 +129,8 @@ static bool is_prime_small(unsigned n) { if (n < 2) return false; for (unsigned 
 
 static void sqrt_lines(const Opts &o, bool thorough)
 {
-	unsigned lim = (unsigned)strtoul(o.val("--sqrt-primes", "2000").c_str(), NULL, 10);
-	(void)thorough;
+	// exhaustive for all primes below 2000 in the thorough tier, below 1000 in the quick tier (run-time budget)
+	unsigned lim = (unsigned)strtoul(o.val("--sqrt-primes", thorough ? "2000" : "1000").c_str(), NULL, 10);
 	for (unsigned p = 3; p < lim; p++) {
 		if (!is_prime_small(p)) continue;
 		Z P((long)p); unsigned nres = 0, okr = 0, okd = 0;
